@@ -27,6 +27,7 @@ type asConfig struct {
 	HookFail   []string          `json:"hookFail"` // [actor, hook]
 	// the following are used by random / directed scenarios only (not part of the TLC model)
 	HookFailMode       string              `json:"hookFailMode,omitempty"`       // "" = the hook returns an error, "panic" = it panics
+	FailMode           string              `json:"failMode,omitempty"`           // "" = handlers report failures with ctx.Failed, "panic" = they panic
 	KilledFail         []string            `json:"killedFail,omitempty"`         // actors whose behaviour fails on a child's OnKilled notification
 	LateSpawn          []string            `json:"lateSpawn,omitempty"`          // actors that spawn one more child when a child dies while they are being killed
 	DecisionSeq        map[string][]string `json:"decisionSeq,omitempty"`        // supervisor -> decision per consultation (the last one repeats)
@@ -253,7 +254,7 @@ func (a *scriptActor) handle(ctx vivid.ActorContext, depth int) {
 		x.mu.Unlock()
 		if first && a.has(x.sc.Cfg.LaunchFail) {
 			x.ev(map[string]any{"e": "Fail", "a": a.name, "k": "launch"})
-			ctx.Failed("launch failure")
+			a.failNow(ctx, "launch failure")
 		}
 	case *vivid.OnKill:
 		a.gotKill = true
@@ -274,7 +275,7 @@ func (a *scriptActor) handle(ctx vivid.ActorContext, depth int) {
 			}
 			if a.has(x.sc.Cfg.KilledFail) {
 				x.ev(map[string]any{"e": "Fail", "a": a.name, "k": "childkilled", "v": b2i(a.gotKill)})
-				ctx.Failed("failure while handling a child's termination")
+				a.failNow(ctx, "failure while handling a child's termination")
 			}
 		}
 	case umsg:
@@ -289,13 +290,22 @@ func (a *scriptActor) handle(ctx vivid.ActorContext, depth int) {
 	}
 }
 
+// failNow reports a failure the way the scenario says: through ctx.Failed or by panicking (the last thing the handler does
+// in both cases, so that the two are observably the same)
+func (a *scriptActor) failNow(ctx vivid.ActorContext, what string) {
+	if a.x.sc.Cfg.FailMode == "panic" {
+		panic(what)
+	}
+	ctx.Failed(what)
+}
+
 func (a *scriptActor) doOp(ctx vivid.ActorContext, m umsg) {
 	x := a.x
 	switch m.Op {
 	case "nop", "probe":
 	case "fail":
 		x.ev(map[string]any{"e": "Fail", "a": a.name, "k": "user", "m": m.ID})
-		ctx.Failed("user failure")
+		a.failNow(ctx, "user failure")
 	case "become", "become!":
 		// "become" stacks the new behaviour on top, "become!" discards what is below it; the event carries the label of
 		// the behaviour that must handle the next message
